@@ -55,6 +55,7 @@ def main() -> int:
     ap.add_argument("--keep", action="store_true")
     ap.add_argument("--only", action="append", default=[])
     ap.add_argument("--replay", default=None)
+    ap.add_argument("--verus-only", action="store_true", help="development / self-test only: skip the Kani units")
     args = ap.parse_args()
     tier = args.tier if args.tier in ("quick", "thorough") else "quick"
     pid = args.property
@@ -90,6 +91,8 @@ def main() -> int:
     kunits = [os.path.join(VERIF, "contracts", "kani", u + ".toml") for u in P.get("kani", [])]
     if args.only:
         kunits = [u for u in kunits if any(o in u for o in args.only)] or ([] if vunits else kunits)
+    if args.verus_only:
+        kunits = []
     kani_results = kani_group.run_units(kunits, REPO, tier, workroot, pid, jobs=int(os.environ.get("VERIF_JOBS", "14")), keep=args.keep, only=None) if kunits else []
 
     # ------------------------------------------------------------------ collect
